@@ -24,7 +24,7 @@ ASSUMPTIONS = ["tolerances: analytic single-contact pairs 2e-5 + 1e-4*size on di
                "2e-3*size + 1e-4 on dist, 2e-2*size on pos, 5e-2 on the normal",
                "skipped and counted (hits 'skip:*'): dist within tolerance of margin+gap (threshold tie); differing contact COUNT of multi-contact pairs when both sides report contacts (clipping "
                "ties; mjw documents <= 1 contact for CCD pairs without multicontact support while MuJoCo >= 3.4 enables multiccd by default) - their deepest contact is still compared for "
-               "analytic pairs; GJK/EPA pairs with penetration > 25% of the smaller geom, with margin+gap > 0 (mj_collision itself deviates from mj_geomDistance by millimetres there), or where "
+               "analytic pairs; GJK/EPA pairs with penetration > 25% of the smaller geom, with margin+gap > 0 ONLY IF the normals agree in direction (dot >= 0.9) and dist agrees within max(ccd tolerance, 5 mm) - mj_collision itself deviates from mj_geomDistance by millimetres there - or, failing that, if mjw's answer is at least as consistent as MuJoCo's under the support-function check |dist - gap(n)|, gap(n) = -(h1(n)+h2(-n)); otherwise a finding, or where "
                "mj_collision reports the DEEPER penetration (EPA returns an upper bound: the shallower answer is the more accurate one); heightfield geometry; non-unique witness points of "
                "flat contacts; capsules parallel within 1e-3 but not 1e-6",
                "explicit <pair> elements carry no margin/gap attribute (known finding C18-pair-margin); no self / duplicate pairs (known findings C19); box/mesh geoms get a margin only with "
@@ -197,6 +197,33 @@ def gen_scene(rng, rich=True, special=True):
 </mujoco>"""
   return xml, {"types": [t for _, t in geoms], "cone": cone, "aligned": bool(aligned), "pair": bool([c for c in contact if "pair" in c]), "exclude": bool([c for c in contact if "exclude" in c]),
                "plan": plan, "ccd": ccd}
+
+
+FOCUS_PAIRS = [("ellipsoid", "ellipsoid"), ("ellipsoid", "cylinder"), ("cylinder", "cylinder"), ("ellipsoid", "box"), ("cylinder", "box"), ("ellipsoid", "mesh"), ("cylinder", "mesh"),
+               ("box", "mesh"), ("mesh", "mesh"), ("capsule", "ellipsoid"), ("capsule", "cylinder"), ("sphere", "ellipsoid")]
+
+
+def gen_focus(rng, t1, t2):
+  """two free geoms of the given types with positive margins; the plan puts the true distance inside (0, margin]"""
+  assets, bodies = [], []
+  for i, t in enumerate((t1, t2)):
+    mg = float(rng.choice([0.01, 0.02, 0.04]))
+    gp = float(rng.choice([0.0, 0.0, 0.01]))
+    if t == "mesh":
+      assets.append(_mesh_asset(rng, f"m{i}"))
+      gx = f'<geom name="g{i}" type="mesh" mesh="m{i}" margin="{mg}" gap="{gp}"/>'
+    else:
+      gx = f'<geom name="g{i}" type="{t}" size="{_f(_size(rng, t))}" margin="{mg}" gap="{gp}"/>'
+    bodies.append(f'<body name="b{i}" pos="{_f(rng.uniform(-0.1, 0.1, size=3))}" quat="{_f(_quat(rng, rng.random() < 0.2))}"><freejoint/>{gx}</body>')
+  cone = str(rng.choice(["pyramidal", "elliptic"]))
+  xml = f"""<mujoco>
+  <option cone="{cone}"><flag multiccd="disable" nativeccd="disable"/></option>
+  <asset>{"".join(assets)}</asset>
+  <worldbody>
+{chr(10).join("    " + b for b in bodies)}
+  </worldbody>
+</mujoco>"""
+  return xml, {"types": [t1, t2], "cone": cone, "aligned": False, "pair": False, "exclude": False, "plan": [(1, "g0", "in-margin")], "ccd": "both-off", "focus": f"{t1}-{t2}"}
 
 
 def _target(rng, regime, M, G):
@@ -425,8 +452,23 @@ def compare(mjm, ref, got, acc, replay):
           acc.hit(f"skip:multi-geometry:{key[0]}-{key[1]}")
           continue
         if kind == "ccd" and thr_of(mjm, pair, c_r) > 0:
-          # margin/gap-inflated GJK/EPA: mj_collision itself deviates from mj_geomDistance by several mm here, no usable reference
-          acc.hit(f"skip:ccd-with-margin-geometry:{key[0]}-{key[1]}")
+          # margin/gap-inflated GJK/EPA: mj_collision itself deviates from mj_geomDistance by a few mm in dist/pos here - but it cannot have the normal pointing the other way
+          # or be centimetres off: (a) same direction, (b) dist within max(ccd tolerance, 5 mm); otherwise the support-function arbiter decides who is right
+          ndot = float(np.dot(c_r["n"], c_g["n"]))
+          ddist = abs(c_r["dist"] - c_g["dist"])
+          if ndot >= 0.9 and ddist <= max(tol_d, 5e-3):
+            acc.hit(f"skip:ccd-with-margin-geometry:{key[0]}-{key[1]}")
+            continue
+          # the signed gap along a unit normal n (geom1 -> geom2) is -(h1(n) + h2(-n)); for the exact answer it EQUALS the reported dist (separated: max over n; penetrating:
+          # -min overlap). A flipped or tilted normal gives a gap of the wrong sign/magnitude. Consistency error = |dist - gap(n)|.
+          og, orf = _overlap_along(mjm, replay, pair, c_g["n"]), _overlap_along(mjm, replay, pair, c_r["n"])
+          if og is not None and orf is not None:
+            e_g, e_r = abs(c_g["dist"] + og), abs(c_r["dist"] + orf)
+            if e_g <= e_r + tol_d:
+              acc.hit(f"skip:ccd-with-margin-mjw-at-least-as-consistent:{key[0]}-{key[1]}")
+              continue
+            bad.append(f"support-function check: |dist - gap(n)| = {e_g:.3g} (mjw) vs {e_r:.3g} (mj_collision); n_mjw.n_mj = {ndot:.3f}")
+          acc.find(f"{t1}-{t2} pair {pair} (margin+gap {thr_of(mjm, pair, c_r):.3g}): " + "; ".join(bad), site, "geometry-ccd", **replay, pair=list(pair))
           continue
         if kind == "ccd" and c_r["dist"] < 0 and c_g["dist"] < 0 and c_g["dist"] > c_r["dist"]:
           # EPA returns an upper bound of the penetration depth (overlap along SOME direction); the shallower answer is the more accurate one, so a deeper mj_collision result cannot
@@ -562,8 +604,9 @@ def _run(ctx, ncases, rich=True):
   rng = np.random.default_rng(ctx.seed * 1000 + 4)
   acc = Acc()
   _regressions(acc)
-  for c in range(ncases):
-    xml, info = gen_scene(rng, rich=rich)
+  scenes = [("focus", t1, t2) for (t1, t2) in FOCUS_PAIRS] + [("random",)] * ncases
+  for c, sc in enumerate(scenes):
+    xml, info = gen_focus(rng, sc[1], sc[2]) if sc[0] == "focus" else gen_scene(rng, rich=rich)
     try:
       mjm = mujoco.MjModel.from_xml_string(xml)
     except ValueError as e:
@@ -575,6 +618,11 @@ def _run(ctx, ncases, rich=True):
     place(rng, mjm, mjd, info["plan"])
     qpos = mjd.qpos.copy()
     mujoco.mj_kinematics(mjm, mjd)
+    if "focus" in info:
+      # the regime is verified, not assumed: true distance (mj_geomDistance, no margins involved) inside (0, margin]
+      s_true = mujoco.mj_geomDistance(mjm, mjd, 0, 1, 10.0, np.zeros(6))
+      M = float(mjm.geom_margin[0] + mjm.geom_margin[1])
+      acc.hit(("in-margin:" if 0 < s_true <= M else "in-margin-missed:") + info["focus"])
     mujoco.mj_collision(mjm, mjd)
     try:
       m = mjw.put_model(mjm)
@@ -822,7 +870,7 @@ def main : IO Unit := do
   return {"evaluations": evals, "distinct_outputs": len(outs), "disagreements": disagreements, "sample": sample, "prim_evaluations": pevals, "prim_distinct": len(pouts)}
 
 
-RULE = ("6 regression inputs of the repaired defects (priority + direct solref; capsule/box pairs inside the gap band) first; then 2-5 free bodies with one sphere/capsule/ellipsoid/cylinder/box/mesh (inline convex vertex sets) geom each, packed in a 0.12-0.3 box (25% axis-aligned orientations), optional plane (50%) and "
+RULE = ("12 two-geom scenes (ellipsoid/cylinder/box/mesh/capsule/sphere GJK pairs, positive margins) placed at a true distance inside (0, margin] (hits in-margin:*), 6 regression inputs of the repaired defects (priority + direct solref; capsule/box pairs inside the gap band) first; then 2-5 free bodies with one sphere/capsule/ellipsoid/cylinder/box/mesh (inline convex vertex sets) geom each, packed in a 0.12-0.3 box (25% axis-aligned orientations), optional plane (50%) and "
         "heightfield (15%); random margin/gap/priority/solmix (incl. 0 and 1e-16)/condim/friction/solref (standard and direct)/solimp per geom; 35% one explicit <pair> (no margin/gap attribute) "
         "with own condim/friction/solref/solimp; 25% one <exclude>; cone pyramidal/elliptic; multiccd on/off; 1-2 worlds. mjw.kinematics + mjw.collision vs mujoco.mj_kinematics + mj_collision: per "
         "unordered geom pair the contact lists are compared (count, dim, friction, solref, solreffriction, solimp, includemargin; dist/pos/normal by nearest-position matching); distinct = (scene, "
